@@ -477,6 +477,7 @@ const preludeDecls = `
 (declare-fun rg.kind (Int) Int)
 (declare-fun rg.owner (Int) Int)
 (declare-fun wraps (Iface Iface) Bool)
+(declare-fun liberr (Iface) Bool)
 `
 
 // Axioms are included in a query only when their trigger symbol occurs in it
